@@ -438,9 +438,14 @@ func buildProbes() []aliasProbe {
 			c := k.fromArr(assocs(n))
 			before := showAssocSorted(c)
 			ks := c.GetKeys()
+			keysBefore := fmt.Sprint(sortedInts(ks.AsArray()))
 			scribbleSeq(ks, -9)
 			if showAssocSorted(c) != before {
 				return fmt.Sprintf("modifying the result of GetKeys changed the collection: %s -> %s", before, showAssocSorted(c))
+			}
+			// ... including what GetKeys itself answers next time
+			if again := fmt.Sprint(sortedInts(c.GetKeys().AsArray())); again != keysBefore {
+				return fmt.Sprintf("modifying the result of GetKeys changed what GetKeys returns afterwards: %s -> %s", keysBefore, again)
 			}
 			ks2 := c.GetKeys()
 			want := show(ks2)
@@ -775,7 +780,51 @@ func buildProbes() []aliasProbe {
 		}
 		return ""
 	})
+	// Join keeps reading from the input queues it was given: what the caller does to the
+	// sequence it passed (recycling the list for something else) must not reach the helper
+	add("Queue.Join/mutate-argument-sequence", func(n int) string {
+		Q := col.Queue[int](Notation)
+		a, b := Q.MakeWithCapacity(uint(n+2)), Q.MakeWithCapacity(uint(n+2))
+		inputs := col.List[col.QueueLike[int]](Notation).MakeFromArray([]col.QueueLike[int]{a, b})
+		var wg sync.WaitGroup
+		out := Q.Join(&wg, inputs)
+		x, y := Q.MakeWithCapacity(uint(n+2)), Q.MakeWithCapacity(uint(n+2))
+		inputs.SetValue(1, x)
+		inputs.SetValue(2, y)
+		inputs.ReverseValues()
+		var want []int
+		for i := 1; i <= n; i++ {
+			a.AddValue(i)
+			b.AddValue(100 + i)
+			want = append(want, i, 100+i)
+			x.AddValue(-i)
+			y.AddValue(-100 - i)
+		}
+		a.CloseQueue()
+		b.CloseQueue()
+		x.CloseQueue()
+		y.CloseQueue()
+		var got []int
+		for {
+			v, ok := out.RemoveHead()
+			if !ok {
+				break
+			}
+			got = append(got, v)
+		}
+		wg.Wait()
+		if fmt.Sprint(got) != fmt.Sprint(want) {
+			return fmt.Sprintf("after the caller recycled the list it had passed to Join, the output received %v instead of %v", got, want)
+		}
+		return ""
+	})
 	return ps
+}
+
+func sortedInts(vs []int) []int {
+	out := append([]int{}, vs...)
+	sort.Ints(out)
+	return out
 }
 
 func reverse(vs []int) []int {
